@@ -388,6 +388,18 @@ func runPoolOps(cfg poolCfg, ops []poolOp) (tr poolTrace) {
 			err := h.Ping(pctx)
 			cancel()
 			ev("ping %d -> err=%v", op.W, err != nil)
+		case "reset-peer":
+			// the peer of the handle's connection goes away while nothing is in flight: from now on every write on it fails
+			// at once, with no byte written
+			if cid, ok := connOf[op.W]; ok {
+				srv.mu.Lock()
+				pc := srv.conns[cid]
+				pc.scriptConn.mu.Lock()
+				pc.scriptConn.failWriteAt = len(pc.scriptConn.written)
+				pc.scriptConn.mu.Unlock()
+				srv.mu.Unlock()
+				ev("reset-peer %d (conn %d)", op.W, cid)
+			}
 		case "finish-slow":
 			srv.mu.Lock()
 			for _, sig := range srv.slow {
@@ -716,6 +728,27 @@ func runC11(c *Ctx) {
 		R.Case(fmt.Sprintf("close-error%d", i), true)
 		R.Count("sequence:directed")
 		c11Report(c, cfg, ops, tr)
+	}
+	// the peer of a pooled connection resets it while the holder is idle; the holder's next Ping / query fails with no byte
+	// written; after the release nobody may be handed that connection again
+	for _, kind := range []string{"ping", "do"} {
+		ops := []poolOp{{Op: "acquire", W: 0}, {Op: "reset-peer", W: 0}, {Op: kind, W: 0, Kind: "ok"}, {Op: "release", W: 0}, {Op: "acquire", W: 1}, {Op: "do", W: 1, Kind: "ok"}, {Op: "release", W: 1}, {Op: "close"}}
+		cfg := poolCfg{MaxConns: 1, LifeMs: 60000, IdleMs: 60000, HealthMs: 1000}
+		tr := runPoolOpsIsolated(cfg, ops)
+		R.Case("peer-reset-"+kind, true)
+		R.Count("sequence:directed")
+		cs := map[string]any{"config": cfg, "ops": ops, "events": tr.events}
+		if tr.panicked != "" {
+			R.Violate(Violation{Kind: "oracle", Key: "pool-panic", What: "the operation sequence made the pool panic: " + tr.panicked, Case: cs})
+		}
+		for _, pr := range tr.problems {
+			key := "pool-problem"
+			if strings.Contains(pr, "handed out by Acquire is dead") || strings.Contains(pr, "after it had been released dead or expired") {
+				key = "dead-connection-reissued"
+			}
+			R.Violate(Violation{Kind: "oracle", Key: key, What: pr, Case: cs})
+			break
+		}
 	}
 	// MinConns > 0 and the server unreachable for a while: the top-up dials fail; once the server is back the periodic health
 	// check must still be doing its job (idle connections past their idle time are destroyed)
